@@ -464,7 +464,7 @@ class Classifier:
 
 def run(ctx):
     rng = ctx.rng
-    nprog = ctx.scale(300, 10000)
+    nprog = ctx.scale(300, 3000)
     skip_variant = "applied_start" in open(os.path.join(common.REPO, "src", "syntax_check.rs")).read()
     fixed_inputs = [(s, ["seed"]) for s in SEEDS] + [(s, ["corpus"]) for s in corpus()]
     progs = fixed_inputs + [gen_lint_program(rng, i) for i in range(nprog)]
